@@ -271,6 +271,11 @@ def run(chk):
 
     chk.validate("MemoryTrace", "MemoryTrace.cfg", traces, key_of=key_of, batch=400)
 
+    # beyond the property: whole controller sessions (SDRAM allocation and the file-like views it returns live
+    # here; so do signals, router entries, IP tags ...) judged against the machine model of Session.tla
+    from . import session
+    session.run_beyond(chk)
+
 
 def selftest(chk):
     rng = random.Random(1)
